@@ -4,7 +4,7 @@ import PyGam.Drv.Common
 Driver operations of C17 (`C17 <op> <args…>`), executing `Model/Sampling.lean` at `Float` with *supplied* generator
 results.  Numbers are IEEE doubles as bit patterns `b<uint64>`, counts are decimal integers.
 
-* `load <m> <cov>×m²`            → `loadDiagonal sqrtEpsMach cov` (m² floats)
+* `load <m> <cov>×m²`            → `loadedCov cov` = `cov + √ε·diag(cov)` (m² floats)
 * `validate <quantity> <fitted:0|1> <nBoot:int> <nDraws:int> <dataOk:0|1>` → `ok | ValueError | AttributeError`
 * `sample <quantity> <fitted> <nBoot> <nDraws> <dataOk> <fam> <link> <levels> <scale|none>
           <m> <nX> <nAt|-1> <nextra> <k> <idx>×k
@@ -85,7 +85,7 @@ def handle : List String → Option String
       let m ← m.toNat?
       if rest.length ≠ m * m then none else
       let cov := (← parseFloats? rest).toArray
-      some (showFloatList ((matToLists m m (loadDiagonal (sqrtEpsMach : Float) (matOf m cov 0))).flatten))
+      some (showFloatList ((matToLists m m (loadedCov (matOf m cov 0))).flatten))
   | ["validate", quantity, fitted, nBoot, nDraws, dataOk] => do
       let fitted ← parseBool? fitted; let dataOk ← parseBool? dataOk
       let nBoot ← nBoot.toInt?; let nDraws ← nDraws.toInt?
